@@ -159,6 +159,14 @@ def main():
     case("str_ord", lambda a: instr.call(ord, ms(a)), [C], [(a,) for a in (0, 65, 127)])
     case("str_in", lambda a: instr.contains(ms(a), "qpzry9x8"), [C], [(a,) for a in (113, 56, 49, 0)])
     case("str_encode", lambda a, b: ms(a, b).encode("ascii"), [C, C], [(65, 66), (0, 127)])
+    # binary renderings: f"{x:b}" (symbolic length), zfill, int(s, 2), and the mixed-sign addition that once narrowed an operand
+    W = (0, 1023)
+    ws = [(0,), (1,), (2,), (511,), (512,), (1023,), (5,), (680,)]
+    case("fbin_zfill", lambda x: instr.fstr((x, -1, "b")).zfill(12) if isinstance(x, SymInt) else f"{x:b}".zfill(12), [W], ws)
+    case("fbin_len", lambda x: instr.call(len, instr.fstr((x, -1, "b"))) if isinstance(x, SymInt) else len(f"{x:b}"), [W], ws)
+    case("int_base2", lambda x: instr.call(int, (instr.fstr((x, -1, "b")).zfill(11) if isinstance(x, SymInt) else f"{x:b}".zfill(11))[3:], 2), [W], ws)
+    case("int_base2_bad", lambda a: instr.call(int, ms(49, a, 48), 2), [C], [(48,), (49,), (50,), (65,), (122,)])
+    case("add_mixed_sign", lambda a: (a - 80) + 32, [(0, 96)], [(0,), (96,), (80,), (48,), (47,)])
     # closed forms decided by the solver rather than sampled
     ex = Explorer(timeout_ms=60000)
     ex.begin([])
